@@ -39,6 +39,8 @@ def rng(salt=""):
 
 
 def workdir(name, clean=True):
+    if _SCRATCH and not name.startswith("scratch/"):
+        name = os.path.join("scratch", os.environ.get("VERIF_RUN_ID", "0"), name)
     d = os.path.join(WORK, name)
     if clean and os.path.isdir(d):
         shutil.rmtree(d, ignore_errors=True)
